@@ -24,13 +24,16 @@
      m for extend: doers' = doers ++ new               [C06_extend_window, last clause]
    e2 in full is FALSE of the code (open finding D42: extending a DoDoer that has
    not yet had its pass in the current root cycle) — [C06_next_cycle_refuted].
+     m as a refinement to the list specification, for the effects of one
+       resumption, class NE0                           [C06_members_refine_partial]
    NOT PROVED (checked by the correspondence and the call-log oracle of
-   harness/drivers/c06.py on every run): (m) over arbitrary interleavings with nested
-   effects (proved per single effect). *)
+   harness/drivers/c06.py on every run): (m) when the entered doers themselves call
+   extend/remove in their first resumption (nested interleavings; there the code
+   computes the not-present arguments before, and appends after, the nested calls). *)
 From Hio Require Import Base.Prelude Base.AMap Base.Time Model.Sched Proofs.SchedLife Proofs.SchedTop
   Proofs.SchedDeque Proofs.SchedDequeHold Proofs.SchedDequeAll Proofs.SchedDequeUniq Proofs.SchedDequeOrder
   Proofs.SchedDequeEffects Proofs.SchedDequeTop Proofs.SchedDequeTop2 Proofs.SchedDequeEpos Proofs.SchedDequeSortB
-  Proofs.SchedDequePass.
+  Proofs.SchedDequePass Proofs.SchedDequeMembers.
 
 (* one extend(): new := the not-present doers, deduplicated; they are entered
    (running their first resumption) with the tyme unchanged, every event of the
@@ -187,6 +190,39 @@ Proof.
   split; [vm_compute; reflexivity|]. split; [rewrite Ws; exact Hh|]. split; [rewrite Ws; exact Hh2|].
   vm_compute. repeat split.
 Qed.
+
+(* (m) membership as a refinement: the effects of one resumption of a doer (any
+   sequence of extend/remove calls on any schedulers) leave the doers list of every
+   scheduler t equal to the list before, transformed by the list-specification
+   operations [apply_mop] (append the not-present arguments, deduplicated / delete
+   the present arguments) of the effects on t that were executed, in order (effects
+   on a scheduler that is not running are skipped; a failing enter stops the
+   sequence).  Class NE0: doers run no effect in their first resumption. *)
+Theorem C06_members_refine_partial :
+  forall (T : Type) (TT : Time T) (tk : T) (f : nat) (s : st T) (c : id) (es : list effect)
+         (s' : st T) (r : gres) (t : id),
+    NE0 (defs s) -> run_effects tk f s c es = (s', r) ->
+    exists ops, subs ops (ops_on t es) /\
+                doers (get_sched s' t) = fold_left apply_mop ops (doers (get_sched s t)).
+Proof. intros. eapply members_refine; eassumption. Qed.
+Print Assumptions C06_members_refine_partial.
+
+Definition m_prog : prog Z :=
+  let Y := {| f_es := []; f_out := OYield None |} in
+  {| p_tock := 1%Z; p_limit := None; p_tyme := 0%Z; p_doers := [1; 2; 5]%N;
+     p_defs := [(1, FLeaf KFunc [Y; Y; Y]); (2, FNest 0%Z true [3; 4]); (3, FLeaf KDoer [Y; Y; Y]);
+                (4, FLeaf KDoerGen [Y; Y; Y]); (5, FLeaf KFunc [Y; Y; Y]); (7, FLeaf KDoer [Y; Y; Y])]%N |}.
+Definition m_state : st Z :=
+  set_rlive (fst (enter_own 1%Z 100 (init_st m_prog) 0%N (p_doers m_prog))) true.
+Definition m_es : list effect :=
+  [ERemove 0 [5; 9; 5]; EExtend 2 [3; 7]; EExtend 0 [7; 5; 7; 1]; ERemove 0 [1]; EExtend 8 [1]]%N.
+Example C06_members_example :
+  NE0b (defs m_state) = true /\
+  doers (get_sched (fst (run_effects 1%Z 50 m_state 1%N m_es)) 0%N)
+    = fold_left apply_mop (ops_on 0%N m_es) (doers (get_sched m_state 0%N)) /\
+  doers (get_sched (fst (run_effects 1%Z 50 m_state 1%N m_es)) 0%N) = [2; 7; 5]%N /\
+  doers (get_sched (fst (run_effects 1%Z 50 m_state 1%N m_es)) 2%N) = [3; 4; 7]%N.
+Proof. vm_compute. repeat split. Qed.
 
 (* "first recur in the next cycle" is false of the code for a target that has not
    yet had its pass in the current root cycle (finding D42): doer 1 extends the
